@@ -187,6 +187,31 @@ impl Prop for C16 {
                 glyphs.push(Glyph::Simple(ig::gen_simple(rng, if cx.quick() { 4 } else { 8 }, 40, range)));
             }
         }
+        // a glyph whose flag stream has a run of 256 or more identical flag bytes (all deltas in the
+        // long form, zero deltas written explicitly), so that the writer emits the maximal repeat
+        // count 255 and continues the run
+        let long_run = rng.chance(1, 30);
+        if long_run {
+            let total = 256 + rng.below(450);
+            let nc = 1 + rng.below(3);
+            let on = rng.chance(3, 4);
+            let mut contours = Vec::new();
+            let (mut x, mut y) = (0i32, 0i32);
+            let mut left = total;
+            for k in 0..nc {
+                let n = if k + 1 == nc { left } else { 1 + rng.below(left - (nc - k - 1)) };
+                left -= n;
+                let mut c = Vec::new();
+                for _ in 0..n {
+                    x = (x + rng.range(-300, 300) as i32).clamp(-2000, 2000);
+                    y = (y + rng.range(-300, 300) as i32).clamp(-2000, 2000);
+                    c.push(ig::Pt { x: x as i16, y: y as i16, on });
+                }
+                contours.push(c);
+            }
+            glyphs[0] = Glyph::Simple(ig::Simple { contours, instructions: Vec::new(), overlap: false });
+            cx.class("glyph:flag-run>=256");
+        }
         let cyclic = rng.chance(1, 25);
         let wide = rng.chance(1, 6);
         for k in 0..ncomp {
@@ -226,7 +251,7 @@ impl Prop for C16 {
             glyphs.push(Glyph::Composite(Composite { components, instructions: rng.bytes(ilen) }));
         }
         // serialise
-        let enc = EncChoice::random(rng);
+        let enc = if long_run { EncChoice { repeat: 8, long: 8, explicit_zero: 8 } } else { EncChoice::random(rng) };
         let mut records = Vec::new();
         for g in &glyphs {
             records.push(match g {
